@@ -7,7 +7,8 @@
  "annotate": ["netbuf/netbuf_write.c"],
  "defines": ["VERIF_HALLOC"],
  "models": ["models/net_events.c", "models/net_netapi.c", "models/net_os.c"],
- "cbmc": [],
+ "cbmc": ["--no-malloc-may-fail"],
+ "instrument_flags": ["--no-malloc-may-fail"],
  "timeout": 300,
  "assumptions": ["no allocation failure in this group (see nw_reserve_fail)", "buffers and len <= NW_MAXOBJ (16384) bytes: below and above the 4096-byte coalescing buffer"]
 }
